@@ -221,9 +221,15 @@ def lean_obligations(ctx, modules, facts=True, leanchecker=False, driver="shootm
         return _lean_obligations(ctx, modules, facts, leanchecker, driver)
 
 
+# further tables regenerated from the current source by area generators (callables, run inside the critical section)
+FACT_HOOKS = []
+
+
 def _lean_obligations(ctx, modules, facts, leanchecker, driver):
     from . import facts as factsmod
     res = {"obligations": [], "discharged": [], "failed": {}, "log": "", "modules": modules}
+    for hook in FACT_HOOKS:
+        hook()
     if facts:
         try:
             factsmod.regenerate(ctx)
